@@ -5,13 +5,17 @@ import Varpulis.Lemmas.Agg
 Statements over the model `Varpulis.Agg` (Model/Agg.lean): `apply f p vs` is the result of
 aggregate `f` on path `p` (`row` = `AggregateFunc::apply`, `shared` = `apply_refs`/`apply_shared`,
 `columnar` = `apply_columnar`) over the field values `vs` of the window's events, in exact rational
-arithmetic (IEEE rounding is trusted, not modelled). `valid vs` are the numeric non-NaN values.
+arithmetic (IEEE rounding is trusted, not modelled), extended by `±∞` and NaN with the IEEE rules
+(`∞ − ∞ = NaN`, `∞ · 0 = NaN`). `validX vs` are the numeric non-NaN values (`±∞` included), `valid vs` the
+finite ones; `−0.0` is the number 0 except where it is handed through (`first`/`last`) or hashed
+(`count_distinct`: same value as `0.0`).
 
 Documented handling (docs/reference/windows-aggregations.md and the code comments): missing and
 non-numeric values are skipped by every numeric aggregate; `sum`/`avg`/`min`/`max` also skip NaN;
 `avg`/`min`/`max` are `null` without a valid value, `stddev` is `null` with fewer than 2 values.
 The documentation is silent about NaN in `stddev` and `ema`: the code does not filter it there, so
-a NaN input yields a NaN result (`stddev_nan`, `ema_nan`) — on all three paths alike. This is IEEE
+a NaN input yields a NaN result (`stddev_nan`, `ema_nan`), and so does an infinite input to `stddev`
+(`stddev_inf`: `delta2 = ∞ − ∞`) — on all three paths alike. This is IEEE
 propagation, contradicts no documented behaviour and is therefore stated as a theorem, not listed
 as a finding.
 -/
@@ -19,53 +23,63 @@ namespace Varpulis.Props.C14
 open Varpulis.Agg
 
 /-- The row-based, shared-event and columnar paths return the same result: every function, every
-batch (any length, any mix of missing / non-numeric / NaN / int / float values). -/
+batch (any length, any mix of missing / non-numeric / NaN / ±∞ / −0.0 / int / float values). -/
 theorem paths_agree (f : Func) (vs : List Val) :
     apply f .row vs = apply f .shared vs ∧ apply f .shared vs = apply f .columnar vs := by
   cases f <;> simp [apply, validFill_eq, validRefs_eq]
 
-/-- The 4-way unrolled scalar sum and the lane-wise AVX2 sum both equal the plain sum, for every
-length (in particular every residue mod 4); likewise lane-wise min/max equal the sequential ones. -/
-theorem unrolled_and_lanewise_equal_plain (l : List Rat) :
-    sumScalar l = sum l ∧ sumAvx2 l = sum l ∧ minAvx2 l = minScalar l ∧ maxAvx2 l = maxScalar l :=
+/-- The 4-way unrolled scalar sum and the lane-wise AVX2 sum both equal the plain (extended-real)
+sum, for every length and also with `±∞` among the values (a NaN result included); lane-wise
+`_mm256_min_pd`/`max_pd` + horizontal reduction equal the sequential scalar loops. -/
+theorem unrolled_and_lanewise_equal_plain (l : List X) :
+    sumScalar l = sumX l ∧ sumAvx2 l = sumX l ∧ minAvx2 l = minScalar l ∧ maxAvx2 l = maxScalar l :=
   ⟨sumScalar_eq l, sumAvx2_eq l, minAvx2_eq l, maxAvx2_eq l⟩
 
 theorem count_spec (p : Path) (vs : List Val) : apply .count p vs = .int vs.length := by
   cases p <;> rfl
 
-/-- `sum` = Σ of the valid values (0 when there is none) -/
-theorem sum_spec (p : Path) (vs : List Val) : apply .sum p vs = .flt (.num (sum (valid vs))) := by
+/-- `sum` = the extended-real Σ of the valid (non-NaN) values: NaN iff `+∞` and `−∞` both occur -/
+theorem sum_spec (p : Path) (vs : List Val) : apply .sum p vs = .flt (sumX (validX vs)) := by
   cases p <;> simp [apply, validFill_eq, validRefs_eq, sumAvx2_eq]
 
-/-- `avg` = Σ/n over the valid values, `null` when there is none -/
+/-- without `±∞`/NaN inputs: `sum` = Σ of the valid values (0 when there is none) -/
+theorem sum_spec_finite (p : Path) (vs : List Val) (h : finiteOnly vs) :
+    apply .sum p vs = .flt (.num (sum (valid vs))) := by
+  rw [sum_spec, validX_of_finite vs h, sumX_num]
+
+/-- `avg` = Σ/n over the valid values (IEEE division), `null` when there is none -/
 theorem avg_spec (p : Path) (vs : List Val) :
     apply .avg p vs =
-      if valid vs = [] then .null else .flt (.num (sum (valid vs) / ((valid vs).length : Nat))) := by
+      if validX vs = [] then .null else .flt (sumX (validX vs) / F.num ((validX vs).length : Nat)) := by
   cases p <;> simp [apply, avgOf, validFill_eq, validRefs_eq, sumAvx2_eq]
 
-/-- `min` = the least valid value, `null` when there is none -/
+theorem avg_spec_finite (p : Path) (vs : List Val) (h : finiteOnly vs) :
+    apply .avg p vs =
+      if valid vs = [] then .null else .flt (.num (sum (valid vs) / ((valid vs).length : Nat))) := by
+  rw [avg_spec, validX_of_finite vs h, sumX_num]
+  simp
+
+/-- `min` = a valid value that no valid value is below (`−∞ < q < +∞`), `null` when there is none -/
 theorem min_spec (p : Path) (vs : List Val) :
-    (valid vs = [] → apply .min p vs = .null) ∧
-    (valid vs ≠ [] → ∃ m, apply .min p vs = .flt (.num m) ∧ m ∈ valid vs ∧ ∀ x ∈ valid vs, m ≤ x) := by
-  have hs := minScalar_spec (valid vs)
+    (validX vs = [] → apply .min p vs = .null) ∧
+    (validX vs ≠ [] → ∃ m ∈ validX vs, apply .min p vs = .flt m.toF ∧ ∀ x ∈ validX vs, X.lt x m = false) := by
   constructor
   · intro h; cases p <;> simp [apply, minOf, validFill_eq, validRefs_eq, h]
   · intro h
-    obtain ⟨m, hm, hmem, hle⟩ := hs.2 h
-    refine ⟨m, ?_, hmem, hle⟩
-    cases p <;> simp [apply, minOf, validFill_eq, validRefs_eq, h, minAvx2_eq, hm, optRes]
+    obtain ⟨hmem, hle⟩ := minScalar_spec (validX vs) h
+    refine ⟨minScalar (validX vs), hmem, ?_, hle⟩
+    cases p <;> simp [apply, minOf, validFill_eq, validRefs_eq, h, minAvx2_eq]
 
-/-- `max` = the greatest valid value, `null` when there is none -/
+/-- `max` = a valid value that no valid value is above, `null` when there is none -/
 theorem max_spec (p : Path) (vs : List Val) :
-    (valid vs = [] → apply .max p vs = .null) ∧
-    (valid vs ≠ [] → ∃ m, apply .max p vs = .flt (.num m) ∧ m ∈ valid vs ∧ ∀ x ∈ valid vs, x ≤ m) := by
-  have hs := maxScalar_spec (valid vs)
+    (validX vs = [] → apply .max p vs = .null) ∧
+    (validX vs ≠ [] → ∃ m ∈ validX vs, apply .max p vs = .flt m.toF ∧ ∀ x ∈ validX vs, X.lt m x = false) := by
   constructor
   · intro h; cases p <;> simp [apply, maxOf, validFill_eq, validRefs_eq, h]
   · intro h
-    obtain ⟨m, hm, hmem, hle⟩ := hs.2 h
-    refine ⟨m, ?_, hmem, hle⟩
-    cases p <;> simp [apply, maxOf, validFill_eq, validRefs_eq, h, maxAvx2_eq, hm, optRes]
+    obtain ⟨hmem, hle⟩ := maxScalar_spec (validX vs) h
+    refine ⟨maxScalar (validX vs), hmem, ?_, hle⟩
+    cases p <;> simp [apply, maxOf, validFill_eq, validRefs_eq, h, maxAvx2_eq]
 
 /-- `first` / `last` = the field of the first / last event of the window (`null` if the window is
 empty or that event lacks the field) -/
@@ -73,27 +87,28 @@ theorem first_last_spec (p : Path) (vs : List Val) :
     apply .first p vs = pickVal vs.head? ∧ apply .last p vs = pickVal vs.getLast? := by
   cases p <;> exact ⟨rfl, rfl⟩
 
-/-- `count_distinct` = the number of distinct values of the field among the events that have it -/
+/-- `count_distinct` = the number of distinct values of the field among the events that have it
+(`−0.0` and `0.0` count as one value, as `Value`'s equality says) -/
 theorem count_distinct_spec (p : Path) (vs : List Val) :
-    ∃ l : List Val, l.Nodup ∧ (∀ v, v ∈ l ↔ (v ∈ vs ∧ v ≠ .missing)) ∧
+    ∃ l : List Val, l.Nodup ∧ (∀ v, v ∈ l ↔ (v ∈ vs.map Val.key ∧ v ≠ .missing)) ∧
       apply .countDistinct p vs = .int l.length := by
-  obtain ⟨h1, _, h3⟩ := distinct_fold vs [] List.nodup_nil (by simp)
+  obtain ⟨h1, _, h3⟩ := distinct_fold (vs.map Val.key) [] List.nodup_nil (by simp)
   refine ⟨distinctSeen vs, h1, ?_, by cases p <;> rfl⟩
   intro v
   have := h3 v
   simpa [distinctSeen] using this
 
-/-- `stddev` on NaN-free input: `null` with fewer than 2 numeric values, otherwise the Welford
+/-- `stddev` on finite input (no NaN, no ±∞): `null` with fewer than 2 numeric values, otherwise the Welford
 loop's `m2/(n−1)` is exactly the sample variance `Σ(x−mean)²/(n−1)` (the code returns its square
 root). -/
-theorem stddev_spec (p : Path) (vs : List Val) (h : Val.nan ∉ vs) :
+theorem stddev_spec (p : Path) (vs : List Val) (h : finiteOnly vs) :
     apply .stddev p vs =
       if (valid vs).length < 2 then .null else .flt (.num (sampleVar (valid vs))) := by
   have hp : apply .stddev p vs = stddevVar vs := by cases p <;> rfl
   rw [hp]
   unfold stddevVar
   simp only
-  rw [floats_of_no_nan vs h, welford_num]
+  rw [floats_of_finite vs h, welford_num]
   by_cases hl : (valid vs).length < 2
   · simp [wState, hl]
   · have h2 : 2 ≤ (valid vs).length := by omega
@@ -117,9 +132,23 @@ theorem stddev_nan (p : Path) (vs : List Val) (h : Val.nan ∈ vs) :
   rw [hn, hm]
   simp
 
-/-- `ema(period)` on NaN-free input is the closed form of its recurrence with `k = 2/(period+1)`:
+/-- `stddev` with an infinite input: `delta2 = ∞ − ∞` makes `m2` NaN, so the result is NaN (null below
+two numeric values), on every path. -/
+theorem stddev_inf (p : Path) (vs : List Val) (s : Bool) (h : Val.inf s ∈ vs) :
+    apply .stddev p vs = if (numeric vs).length < 2 then .null else .flt .nan := by
+  have hp : apply .stddev p vs = stddevVar vs := by cases p <;> rfl
+  rw [hp]
+  unfold stddevVar numeric
+  simp only
+  have hn : (welford (floats vs)).n = (floats vs).length := by
+    simp [welford, welford_n]
+  have hm : (welford (floats vs)).m2 = .nan := welford_inf _ _ s (inf_mem_floats vs s h)
+  rw [hn, hm]
+  simp
+
+/-- `ema(period)` on finite input (no NaN, no ±∞) is the closed form of its recurrence with `k = 2/(period+1)`:
 `(1−k)^(n−1)·x₁ + Σ_{i≥2} k·(1−k)^(n−i)·xᵢ`; `null` without a numeric value. -/
-theorem ema_spec (p : Path) (period : Nat) (vs : List Val) (h : Val.nan ∉ vs) :
+theorem ema_spec (p : Path) (period : Nat) (vs : List Val) (h : finiteOnly vs) :
     apply (.ema period) p vs =
       match emaClosed (emaK period) (valid vs) with
       | some q => .flt (.num q)
@@ -127,7 +156,7 @@ theorem ema_spec (p : Path) (period : Nat) (vs : List Val) (h : Val.nan ∉ vs) 
   have hp : apply (.ema period) p vs = emaOf period vs := by cases p <;> rfl
   rw [hp]
   unfold emaOf
-  rw [floats_of_no_nan vs h, ema_num]
+  rw [floats_of_finite vs h, ema_num]
   cases emaClosed (emaK period) (valid vs) <;> rfl
 
 /-- `ema` does not filter NaN either: a NaN input makes the result NaN. -/
@@ -138,17 +167,26 @@ theorem ema_nan (p : Path) (period : Nat) (vs : List Val) (h : Val.nan ∈ vs) :
   unfold emaOf
   rw [Varpulis.Agg.ema_nan _ _ _ (nan_mem_floats vs h)]
 
-/-- non-vacuity: a NaN-free batch with missing, non-numeric and numeric values meets the premises;
-a batch with NaN meets those of the NaN theorems -/
+/-- non-vacuity: a finite batch with missing, non-numeric, −0.0 and numeric values meets the
+premises; batches with NaN / ±∞ meet those of the NaN and ∞ theorems -/
 example :
-    let vs : List Val := [.int 1, .missing, .nonNum 3, .int 6, .nonNum 3, .int 1]
-    Val.nan ∉ vs ∧ valid vs = [((1 : Int) : Rat), ((6 : Int) : Rat), ((1 : Int) : Rat)]
-    ∧ apply .count .row vs = .int 6 ∧ apply .countDistinct .shared vs = .int 3
-    ∧ apply .first .columnar vs = .val (.int 1) ∧ apply .last .row [Val.int 1, .missing] = .null
+    let vs : List Val := [.int 1, .missing, .nonNum 3, .int 6, .nonNum 3, .negZero, .int 1]
+    finiteOnly vs ∧ valid vs = [((1 : Int) : Rat), ((6 : Int) : Rat), 0, ((1 : Int) : Rat)]
+    ∧ apply .count .row vs = .int 7 ∧ apply .countDistinct .shared vs = .int 4
+    ∧ apply .first .columnar vs = .val (.int 1) ∧ apply .last .row [Val.int 1, .negZero] = .val .negZero
     ∧ Val.nan ∈ [Val.int 1, .nan, .int 2] ∧ (numeric [Val.int 1, .nan, .int 2]).length = 3 := by
-  refine ⟨by decide, rfl, rfl, by decide, rfl, rfl, by decide, rfl⟩
+  refine ⟨⟨by decide, by decide⟩, rfl, rfl, by decide, rfl, rfl, by decide, rfl⟩
 
-/-- a computed instance: Σ, least value and sample variance of 1, 2, 3, 6 -/
+/-- computed instances with infinities: `+∞ + −∞` is NaN on every summation shape, one kind of `∞`
+wins over finite values, and `min`/`max` order `−∞ < q < +∞` -/
+example :
+    sumX [.inf false, .num 1, .inf true] = .nan ∧ sumAvx2 [.inf false, .num 1, .inf true, .num 2, .num 3] = .nan
+    ∧ sumScalar [.num 1, .inf true, .num 2, .num 3, .num 4] = .inf true
+    ∧ minAvx2 [.num 1, .inf true, .num 2, .inf false, .num 0] = .inf true
+    ∧ maxScalar [.inf true, .inf true] = .inf true := by
+  refine ⟨rfl, rfl, rfl, ?_, ?_⟩ <;> decide
+
+/-- a computed instance: Σ and sample variance of 1, 2, 3, 6 -/
 example : sum [1, 2, 3, 6] = 12 ∧ sampleVar [1, 2, 3, 6] = 14 / 3 := by
   simp [sum, sampleVar]; grind
 
